@@ -20,6 +20,7 @@ import (
 //   N <conn>              register connection <conn> (>=1); conn 0 is the embedded caller
 //   C <conn> <hex> ...    command (argv hex-encoded; "-" is the empty string)
 //   X <conn> <hexraw>     raw message bytes
+//   P <db> <hexkey> <value> <deadline-ms>   store a value directly (canonical value text)
 //   A <ms>                advance the virtual clock
 //   W <db>                one synchronous round of the expiry sampler
 //   G                     digest
@@ -158,6 +159,17 @@ func main() {
 					fmt.Fprintf(out, "R %s\n", canon(res))
 				}
 				out.Flush()
+			case "P":
+				dbi, _ := strconv.Atoi(f[1])
+				dl, _ := strconv.ParseInt(f[4], 10, 64)
+				v, perr := sugardb.VerifParseValue(f[3])
+				if perr != nil {
+					panic(perr)
+				}
+				if perr = in.db.VerifPreset(dbi, unhex(f[2]), v, dl); perr != nil {
+					fmt.Fprintf(out, "P -\n")
+					out.Flush()
+				}
 			case "A":
 				ms, _ := strconv.ParseInt(f[1], 10, 64)
 				in.clk.Advance(time.Duration(ms) * time.Millisecond)
